@@ -12,6 +12,7 @@ import (
 	"errors"
 	"fmt"
 	"io"
+	"math/rand"
 	"reflect"
 	"runtime"
 	"strings"
@@ -44,12 +45,35 @@ type lockWorld struct {
 	dead  bool   // the store could not be restarted: abandon the world
 	key   string
 	locks []*RedisLock
+	// wide: times and seconds are logged as two-limb numbers [hi, lo] = hi*10^6 + lo
+	// (RedisLockWideTrace.tla) so that the whole range of SetExpire (0 .. 2^32-1 seconds,
+	// leases up to 4.3e12 ms) can be driven; otherwise plain integers (RedisLockTrace.tla)
+	wide  bool
+	clock int64 // ms the clock of this trace has been moved
+}
+
+const lockLimb = 1000000
+
+// lockMaxClock bounds the clock of one trace (the hi limb of a time stays far below 2^31)
+const lockMaxClock = int64(1500000000) * lockLimb
+
+// tv is a time / number of seconds in the trace format of this world.
+func (w *lockWorld) tv(v int64) any {
+	if w.wide {
+		return []int64{v / lockLimb, v % lockLimb}
+	}
+	return v
 }
 
 var (
 	lockKeySeq  int64
 	lockCallSeq int64
+	// trace format of the worlds the running test creates (set at the start of every test):
+	// the random / concurrent / scheduler drivers run wide unless VERIF_LOCK_WIDE=0
+	lockWide bool
 )
+
+func lockWideEnv() bool { return verifEnvInt("VERIF_LOCK_WIDE", 1) == 1 }
 
 func newLockWorld(t *testing.T, em *verifEmitter) *lockWorld {
 	logx.Disable()
@@ -66,7 +90,7 @@ func newLockWorld(t *testing.T, em *verifEmitter) *lockWorld {
 			m.Close()
 			continue
 		}
-		return &lockWorld{t: t, em: em, m: m, r: r, mode: "up"}
+		return &lockWorld{t: t, em: em, m: m, r: r, mode: "up", wide: lockWide}
 	}
 	t.Fatal("cannot start a miniredis store")
 	return nil
@@ -96,6 +120,7 @@ func (w *lockWorld) next() *lockWorld {
 // begin starts a new trace: n fresh RedisLock instances on a fresh key.
 func (w *lockWorld) begin(n int) {
 	w.key = fmt.Sprintf("verif-lock-%d", atomic.AddInt64(&lockKeySeq, 1))
+	w.clock = 0
 	w.locks = w.locks[:0]
 	for i := 0; i < n; i++ {
 		w.locks = append(w.locks, NewRedisLock(w.r, w.key))
@@ -111,7 +136,7 @@ func (w *lockWorld) obs() {
 	}
 	val, err := w.m.Get(w.key)
 	if err != nil {
-		w.em.Emit(verifEv{"e": "obs", "held": false, "h": -1, "ttl": 0})
+		w.em.Emit(verifEv{"e": "obs", "held": false, "h": -1, "ttl": w.tv(0)})
 		return
 	}
 	h := -2
@@ -120,7 +145,7 @@ func (w *lockWorld) obs() {
 			h = i
 		}
 	}
-	w.em.Emit(verifEv{"e": "obs", "held": true, "h": h, "ttl": int(w.m.TTL(w.key) / time.Millisecond)})
+	w.em.Emit(verifEv{"e": "obs", "held": true, "h": h, "ttl": w.tv(int64(w.m.TTL(w.key) / time.Millisecond))})
 }
 
 // fault switches the store between up, answering every command with an error, and closed.
@@ -165,23 +190,30 @@ func (w *lockWorld) release(i int) {
 	w.em.Emit(verifEv{"e": "release", "i": i, "ok": ok, "err": err != nil})
 }
 
-func (w *lockWorld) setExpire(i, s int) {
-	w.locks[i].SetExpire(s)
-	w.em.Emit(verifEv{"e": "setExpire", "i": i, "s": s})
+func (w *lockWorld) setExpire(i int, s int64) {
+	w.locks[i].SetExpire(int(s))
+	w.em.Emit(verifEv{"e": "setExpire", "i": i, "s": w.tv(s)})
 }
 
-func (w *lockWorld) advance(d int) {
+// room: may the clock of this trace still move by d ms (see lockMaxClock)
+func (w *lockWorld) room(d int64) bool { return d >= 0 && w.clock+d <= lockMaxClock }
+
+func (w *lockWorld) advance(d int64) {
+	if !w.room(d) {
+		return
+	}
+	w.clock += d
 	w.m.FastForward(time.Duration(d) * time.Millisecond)
-	w.em.Emit(verifEv{"e": "advance", "d": d})
+	w.em.Emit(verifEv{"e": "advance", "d": w.tv(d)})
 }
 
 // ttlMs is the remaining life of the key in the store (0: no key); used only to aim clock
 // advances at the lease boundary.
-func (w *lockWorld) ttlMs() int {
+func (w *lockWorld) ttlMs() int64 {
 	if !w.m.Exists(w.key) {
 		return 0
 	}
-	return int(w.m.TTL(w.key) / time.Millisecond)
+	return int64(w.m.TTL(w.key) / time.Millisecond)
 }
 
 // TestVerifLockReplay replays TLC-generated operation histories (RedisLockMC, Emit=TRUE).
@@ -191,6 +223,7 @@ func TestVerifLockReplay(t *testing.T) {
 	n := verifEnvInt("VERIF_LOCK_N", 3)
 	closedEvery := verifEnvInt("VERIF_LOCK_CLOSED_EVERY", 7)
 	probe := verifEnvInt("VERIF_LOCK_PROBE", 0) == 1
+	lockWide = false
 	w := newLockWorld(t, em)
 	defer func() { w.shutdown() }()
 	for hi, raw := range verifInput(t) {
@@ -210,9 +243,9 @@ func TestVerifLockReplay(t *testing.T) {
 			case "release":
 				w.release(op.I)
 			case "setExpire":
-				w.setExpire(op.I, op.V)
+				w.setExpire(op.I, int64(op.V))
 			case "advance":
-				w.advance(op.V)
+				w.advance(int64(op.V))
 			case "fault":
 				switch {
 				case op.V == 0:
@@ -244,7 +277,29 @@ func TestVerifLockReplay(t *testing.T) {
 	}
 }
 
-var lockSecs = []int{0, 0, 1, 1, 2, 3, 5, 10, 60, 600, 3600}
+var lockSecs = []int64{0, 0, 1, 1, 2, 3, 5, 10, 60, 600, 3600}
+
+// lockWideSecs: legal SetExpire values (the field is a uint32) at the width boundaries of the
+// lease arithmetic seconds*1000+500: 2^24 / 2^31 / 2^32 milliseconds, 2^15 / 2^16 / 2^31 / 2^32
+// seconds.
+var lockWideSecs = []int64{16777, 16778, 32767, 32768, 65535, 65536, 2147483, 2147484,
+	4294966, 4294967, 4294968, 1<<31 - 1, 1 << 31, 1<<31 + 1, 1<<32 - 2, 1<<32 - 1}
+
+// pickSecs draws a value for SetExpire: one of the first `small` ordinary values, or (in a
+// wide world, one draw in six) anything up to 2^32-1 seconds.
+func (w *lockWorld) pickSecs(rnd *rand.Rand, small int) int64 {
+	if w.wide && rnd.Intn(6) == 0 {
+		switch rnd.Intn(3) {
+		case 0:
+			return lockWideSecs[rnd.Intn(len(lockWideSecs))]
+		case 1:
+			return rnd.Int63n(1 << 32)
+		default:
+			return 4294967 + rnd.Int63n(1<<32-4294967)
+		}
+	}
+	return lockSecs[rnd.Intn(small)]
+}
 
 // TestVerifLockRandom: long seeded sequential histories: up to 6 instances, leases from
 // 500 ms to 10 minutes, clock advances aimed at the lease boundary, outages.
@@ -256,6 +311,7 @@ func TestVerifLockRandom(t *testing.T) {
 	if verifThorough() {
 		histories, length = 300, 250
 	}
+	lockWide = lockWideEnv()
 	w := newLockWorld(t, em)
 	defer func() { w.shutdown() }()
 	for h := 0; h < histories; h++ {
@@ -295,11 +351,11 @@ func TestVerifLockRandom(t *testing.T) {
 			case x < 56:
 				w.release(i)
 			case x < 66:
-				w.setExpire(i, lockSecs[rnd.Intn(len(lockSecs))])
+				w.setExpire(i, w.pickSecs(rnd, len(lockSecs)))
 			case x < 95:
 				ttl := w.ttlMs()
-				lease := w.locks[i].seconds*1000 + 500
-				var d int
+				lease := int64(w.locks[i].seconds)*1000 + 500
+				var d int64
 				switch y := rnd.Intn(10); {
 				case y < 2 && ttl > 1:
 					d = ttl - 1
@@ -308,11 +364,11 @@ func TestVerifLockRandom(t *testing.T) {
 				case y < 5 && ttl > 0:
 					d = ttl + 1
 				case y < 7 && ttl > 1:
-					d = 1 + rnd.Intn(ttl)
+					d = 1 + rnd.Int63n(ttl)
 				case y < 8:
-					d = int(lease) - 1 + rnd.Intn(3)
+					d = lease - 1 + rnd.Int63n(3)
 				default:
-					d = 1 + rnd.Intn(700)
+					d = 1 + rnd.Int63n(700)
 				}
 				w.advance(d)
 			default:
@@ -357,6 +413,7 @@ func TestVerifLockConcurrent(t *testing.T) {
 	if verifThorough() {
 		traces, rounds = 200, 12
 	}
+	lockWide = lockWideEnv()
 	w := newLockWorld(t, em)
 	defer func() { w.shutdown() }()
 	for tr := 0; tr < traces; tr++ {
@@ -365,7 +422,7 @@ func TestVerifLockConcurrent(t *testing.T) {
 		w.begin(n)
 		for i := 0; i < n; i++ {
 			if rnd.Intn(2) == 0 {
-				w.setExpire(i, lockSecs[rnd.Intn(5)])
+				w.setExpire(i, w.pickSecs(rnd, 5))
 			}
 		}
 		faulty := rnd.Intn(5) == 0
@@ -380,7 +437,7 @@ func TestVerifLockConcurrent(t *testing.T) {
 				}
 				spins[c] = rnd.Intn(4)
 			}
-			adv := -1
+			adv := int64(-1)
 			if rnd.Intn(3) == 0 {
 				ttl := w.ttlMs()
 				switch y := rnd.Intn(4); {
@@ -391,7 +448,10 @@ func TestVerifLockConcurrent(t *testing.T) {
 				case y == 2 && ttl > 0:
 					adv = ttl + 1
 				default:
-					adv = 1 + rnd.Intn(600)
+					adv = 1 + rnd.Int63n(600)
+				}
+				if !w.room(adv) {
+					adv = -1
 				}
 			}
 			midFault := faulty && rnd.Intn(3) == 0
@@ -406,7 +466,7 @@ func TestVerifLockConcurrent(t *testing.T) {
 						runtime.Gosched()
 					}
 					id := int(atomic.AddInt64(&lockCallSeq, 1))
-					em.Emit(verifEv{"e": "callStart", "c": id, "op": cl.op, "i": cl.i, "d": 0})
+					em.Emit(verifEv{"e": "callStart", "c": id, "op": cl.op, "i": cl.i, "d": w.tv(0)})
 					var ok bool
 					var err error
 					if cl.op == "acquire" {
@@ -426,7 +486,8 @@ func TestVerifLockConcurrent(t *testing.T) {
 					runtime.Gosched()
 				}
 				id := int(atomic.AddInt64(&lockCallSeq, 1))
-				em.Emit(verifEv{"e": "callStart", "c": id, "op": "advance", "i": -1, "d": adv})
+				em.Emit(verifEv{"e": "callStart", "c": id, "op": "advance", "i": -1, "d": w.tv(adv)})
+				w.clock += adv
 				w.m.FastForward(time.Duration(adv) * time.Millisecond)
 				em.Emit(verifEv{"e": "callEnd", "c": id, "ok": true, "err": false})
 			}
@@ -442,12 +503,12 @@ func TestVerifLockConcurrent(t *testing.T) {
 				case 0:
 					w.release(i)
 				case 1:
-					w.setExpire(i, lockSecs[rnd.Intn(5)])
+					w.setExpire(i, w.pickSecs(rnd, 5))
 				case 2:
 					if ttl := w.ttlMs(); ttl > 0 {
-						w.advance(ttl - 1 + rnd.Intn(3))
+						w.advance(ttl - 1 + rnd.Int63n(3))
 					} else {
-						w.advance(1 + rnd.Intn(500))
+						w.advance(1 + rnd.Int63n(500))
 					}
 				case 3:
 					// the current holder (as the store has it) lets go
@@ -572,6 +633,7 @@ func TestVerifLockSched(t *testing.T) {
 	if verifThorough() {
 		traces, rounds = 500, 14
 	}
+	lockWide = lockWideEnv()
 	w := newLockWorld(t, em)
 	defer func() { w.shutdown() }()
 	g := &lockGate{}
@@ -587,7 +649,7 @@ func TestVerifLockSched(t *testing.T) {
 		n := 2 + rnd.Intn(3)
 		w.begin(n)
 		for i := 0; i < n; i++ {
-			w.setExpire(i, lockSecs[rnd.Intn(5)])
+			w.setExpire(i, w.pickSecs(rnd, 5))
 		}
 		failing := rnd.Intn(4) == 0
 		if failing {
@@ -623,7 +685,7 @@ func TestVerifLockSched(t *testing.T) {
 			for c := range calls {
 				go func(cl lockCall) {
 					id := int(atomic.AddInt64(&lockCallSeq, 1))
-					em.Emit(verifEv{"e": "callStart", "c": id, "op": cl.op, "i": cl.i, "d": 0})
+					em.Emit(verifEv{"e": "callStart", "c": id, "op": cl.op, "i": cl.i, "d": w.tv(0)})
 					var ok bool
 					var err error
 					if cl.op == "acquire" {
@@ -653,7 +715,7 @@ func TestVerifLockSched(t *testing.T) {
 					case y == 3 && ttl > 0:
 						w.advance(ttl + 1)
 					default:
-						w.advance(1 + rnd.Intn(400))
+						w.advance(1 + rnd.Int63n(400))
 					}
 				}
 				g.release(rnd.Intn(parked), !(failing && rnd.Intn(6) == 0))
@@ -664,9 +726,9 @@ func TestVerifLockSched(t *testing.T) {
 			w.obs()
 			if rnd.Intn(3) == 0 {
 				if ttl := w.ttlMs(); ttl > 0 && rnd.Intn(2) == 0 {
-					w.advance(ttl - 1 + rnd.Intn(3))
+					w.advance(ttl - 1 + rnd.Int63n(3))
 				} else {
-					w.setExpire(rnd.Intn(n), lockSecs[rnd.Intn(5)])
+					w.setExpire(rnd.Intn(n), w.pickSecs(rnd, 5))
 				}
 				w.obs()
 			}
